@@ -268,6 +268,8 @@ def make_pda(Q, S, G, trans, q0, F, eps="ε"):
     delta = defaultdict(set)
     for (p, a, u, q, v) in trans:
         delta[p, a, u].add((q, v))
+    if len(trans) % 3 == 1:
+        delta = dict(delta)            # every third PDA carries its relation in a plain (partial) dict
     return PDA(set(Q), set(S), set(G), delta, q0, set(F), eps)
 
 
